@@ -219,9 +219,14 @@ func runC10(tierName string) int {
 
 	// Phase 1: fresh-process references (I2) for both worker variants.
 	tRef := time.Now()
-	v, pair, _ := c.computeRefs(pool, variants, tier.K, baseSeed, par)
-	if v != nil {
-		report(&ReplayFile{Property: "C10", Kind: "c10-fresh", BaseSeed: baseSeed, Tier: tier.name, Violation: *v, Pair: pair, Exact: pair[0].Variant == "sim"})
+	i2vs, i2pairs := c.computeRefs(pool, variants, tier.K, baseSeed, par)
+	i2seen := map[string]bool{}
+	for i, v := range i2vs {
+		if i2seen[i2pairs[i][0].Variant] { // one report per variant is enough; all are counted
+			continue
+		}
+		i2seen[i2pairs[i][0].Variant] = true
+		report(&ReplayFile{Property: "C10", Kind: "c10-fresh", BaseSeed: baseSeed, Tier: tier.name, Violation: *v, Pair: i2pairs[i], Exact: i2pairs[i][0].Variant == "sim"})
 	}
 	excluded := map[string]int{}
 	var admitted = map[string][]int{}
@@ -229,7 +234,9 @@ func runC10(tierName string) int {
 		for _, vn := range variants {
 			if o := pp.Ref[vn]; o != nil && o.Admitted() {
 				admitted[vn] = append(admitted[vn], i)
-			} else if o != nil {
+			} else if o == nil {
+				excluded[vn+":fresh-processes-disagree"]++
+			} else {
 				excluded[vn+":parse="+o.ParseClass+",exec="+o.ExecClass]++
 			}
 		}
@@ -269,7 +276,7 @@ func runC10(tierName string) int {
 		parallelDo(len(jobs), par, func(i int) {
 			jb := jobs[i]
 			r := NewRNG(deriveSeed(baseSeed, 300, uint64(jb.pi)*64+uint64(jb.k)))
-			cf := &CliFresh{Src: base64.StdEncoding.EncodeToString(pool[jb.pi].Src), SrcName: pick(r, []string{"in.nas", "src.asm", "a", "prog.nas"}), DstName: pick(r, destNames), Abs: r.Chance(1, 2), Env: drawProcEnv(r, true), Debug: r.Chance(1, 5)}
+			cf := &CliFresh{Src: base64.StdEncoding.EncodeToString(pool[jb.pi].Src), SrcName: pick(r, []string{"in.nas", "src.asm", "a.nas", "prog.nas"}), DstName: pick(r, destNames), Abs: r.Chance(1, 2), Env: drawProcEnv(r, true), Debug: r.Chance(1, 5)}
 			cfs[i] = cf
 			outs[i] = c.runCli(cf)
 		})
@@ -284,7 +291,7 @@ func runC10(tierName string) int {
 				report(&ReplayFile{Property: "C10", Kind: "c10-cli", BaseSeed: baseSeed, Tier: tier.name, Exact: false,
 					Violation: Violation{Property: "C10", Class: "I2-fresh-processes-disagree", Op: -1, ProgKey: pool[jb.pi].Key,
 						Detail: "two fresh runs of the shipped gosk binary on the same source disagree (" + pool[jb.pi].P.Name + ")", Expected: first.String(), Observed: outs[i].String()},
-					Cli: cfs[i], Note: "first run: " + fmt.Sprintf("%+v", *cfs[i-jb.k])})
+					CliPair: []*CliFresh{cfs[i-jb.k], cfs[i]}})
 				break
 			}
 		}
